@@ -215,7 +215,15 @@ pub fn run(args: &Args) {
             let (bw, bh) = (rng.range(1, 3), rng.range(2, 5));
             if with_shared {
                 let depth = rng.range(1, 3);
-                let master = gen(&mut rng, depth, &cfg);
+                let mut master = gen(&mut rng, depth, &cfg);
+                // half of the blocks also refer into another sheet: edits of that sheet separate the members' targets
+                if rng.chance(1, 2) {
+                    let ti = (bsi + 1 + rng.below(sheets.len() as u64 - 1) as usize) % sheets.len();
+                    if !needs_quote(&sheets[ti]) || allow.contains("sheet-quoted") {
+                        let far = Ref { sheet: Some(sheets[ti].clone()), kind: RefKind::Cell(CellRef { col: rng.range(1, W - 3), row: rng.range(1, H - 6), lc: false, lr: false }) };
+                        master = Ast::Bin(Box::new(master), "+", Box::new(Ast::Ref(far)), false);
+                    }
+                }
                 for dr in 0..bh {
                     for dc in 0..bw {
                         let ast = translate_ast(&master, dc as i64, dr as i64);
